@@ -176,6 +176,23 @@ func c02R2(c *Ctx, r *Report, fns []*ssa.Function) {
 				}
 				env := newLinEnv()
 				lf := env.lin(sz)
+				// the length of the message buffer itself is not the length of a field: in a per-record decoder the
+				// buffer is everything up to the end of this RDATA, and an allocation proportional to it, made once
+				// per record, is quadratic in the input. Accepted only with an offset taken off (len(msg)-off).
+				for nm, coef := range lf.t {
+					if coef <= 0 || !(nm == "len(msg)" || strings.HasPrefix(nm, "len(msg~")) {
+						continue
+					}
+					neg := false
+					for _, cf := range lf.t {
+						if cf < 0 {
+							neg = true
+						}
+					}
+					if !neg || coef > 1 {
+						bad = append(bad, fmt.Sprintf("%d*len(msg) with no offset taken off (the whole message up to the end of this RDATA, once per record: quadratic)", coef))
+					}
+				}
 				for a := range lf.t {
 					if strings.HasPrefix(a, "len(") {
 						continue
@@ -534,4 +551,16 @@ func c02BoundsRun(c *Ctx, r *Report) {
 	}
 	sort.Slice(fns, func(i, j int) bool { return fnDisplay(fns[i]) < fnDisplay(fns[j]) })
 	c02R5(c, r, e, scope, fns)
+}
+
+// decodeScope: the functions reachable from the decoding entry points, sorted.
+func decodeScope(c *Ctx) []*ssa.Function {
+	e := newAliasEngine(c)
+	scope := e.reachable(decodeEntryPoints(c))
+	var fns []*ssa.Function
+	for f := range scope {
+		fns = append(fns, f)
+	}
+	sort.Slice(fns, func(i, j int) bool { return fnDisplay(fns[i]) < fnDisplay(fns[j]) })
+	return fns
 }
